@@ -130,6 +130,12 @@ def creation_sites(chk, P, units, rule="R-FILTER", exceptions=None):
             if T in UNFILTERABLE:
                 chk.inst(rule, f, key, True, "%s cannot be filtered out" % T, loc=f.loc(c), nontrivial=False)
                 continue
+            # the type expression is known, on every path, to equal a type that cannot be filtered out (an assertion or a test:
+            # the abort branch of assert() does not continue)
+            eqs = [u9 for u9 in UNFILTERABLE for fct in st if (fct[0] == "T" and fct[1] in ("%s == %s" % (T, u9), "%s == %s" % (u9, T))) or (fct[0] == "F" and fct[1] in ("%s != %s" % (T, u9), "%s != %s" % (u9, T)))]
+            if eqs:
+                chk.inst(rule, f, "create:%s#%d" % (eqs[0], k), True, "%s is known to be %s here (tested or asserted on every path), which cannot be filtered out" % (T, eqs[0]), loc=f.loc(c))
+                continue
             # (a) dominated by a passed filter check of the same type
             ok = False
             how = ""
